@@ -111,6 +111,11 @@ def run(check):
                     decoy = {(sec, key): ("Decoy%d" % rng.randint(0, 99) if "package" not in name else "net.decoy%d.pk" % rng.randint(0, 99))}
                     sc.write("ws/typeshare.toml", toml_text(decoy, {"typescript": {"type_mappings": {"Url": "DecoyUrl"}}}))
                     check.count("explicit -c next to a discoverable typeshare.toml")
+                if have_file and discover == "ancestor":
+                    # a second typeshare.toml farther up the ancestor chain: the nearest one must win
+                    far = {(sec, key): ("Far%d" % rng.randint(0, 99) if "package" not in name else "net.far%d.pk" % rng.randint(0, 99))}
+                    sc.write("typeshare.toml", toml_text(far, {"typescript": {"type_mappings": {"Url": "FarUrl"}}}))
+                    check.count("two typeshare.toml files on the ancestor chain")
                 if have_file:
                     sc.write(cfg_path, toml_text(shared, tables))
                 langs = [lang] if lang else ["typescript"]
